@@ -453,7 +453,13 @@ def gen_blob(rng, aligned=None):
         return b
     if k < 0.9:
         return bytearray(b)
-    if k < 0.97 or len(b) < 8:
+    if k < 0.935:
+        return memoryview(b)
+    if k < 0.97:
+        # writable view over a buffer the application goes on using (what
+        # io.BytesIO.getbuffer() / SynthDef.as_bytes() hand out)
+        return memoryview(bytearray(b))
+    if len(b) < 8:
         return memoryview(b)
     # buffers whose items are not single bytes (array('i'), cast views)
     b = b[:len(b) // 8 * 8]
@@ -695,7 +701,10 @@ def neutralize(lst, which):
 def srepr(x):
     """repr without memory addresses (memoryview / bytearray / object)."""
     if isinstance(x, (bytearray, memoryview)):
-        return f'{type(x).__name__}({bytes(x)!r})'
+        try:
+            return f'{type(x).__name__}({bytes(x)!r})'
+        except ValueError:          # a view somebody released
+            return 'memoryview(<released>)'
     if isinstance(x, list):
         return '[' + ', '.join(srepr(e) for e in x) + ']'
     if isinstance(x, tuple):
@@ -703,6 +712,115 @@ def srepr(x):
     if type(x) is object:
         return 'object()'
     return repr(x)
+
+
+# --------------------------------------------------------------------------
+# arguments are inputs: snapshots of the caller's objects
+# --------------------------------------------------------------------------
+
+def snapshot(x):
+    """Deep immutable snapshot of an OSC list (or any argument value): what
+    the caller's objects held before the library saw them."""
+    if isinstance(x, bytearray):
+        return ('bytearray', bytes(x))
+    if isinstance(x, memoryview):
+        try:
+            return ('memoryview', bytes(x), x.format, x.shape)
+        except ValueError:
+            return ('memoryview-released',)
+    if isinstance(x, list):
+        return ('list', tuple(snapshot(e) for e in x))
+    if isinstance(x, tuple):
+        return ('tuple', tuple(snapshot(e) for e in x))
+    if isinstance(x, float):
+        return ('float', struct.pack('>d', x))
+    if type(x) in (int, bool, str, bytes, type(None)):
+        return (type(x).__name__, x)
+    return ('other', type(x).__name__, srepr(x))
+
+
+def mutations(snap, x, role='packet'):
+    """Kinds of difference between the snapshot `snap` (taken before the
+    first send) and the object graph `x` as it is now; empty set: untouched.
+    Kinds name the mutable object that changed, not where it sat."""
+    out = set()
+
+    def rec(s, v, role):
+        now = snapshot(v) if not isinstance(v, (list, tuple)) else None
+        if s[0] in ('list', 'tuple'):
+            if type(v).__name__ != s[0]:
+                out.add('element-replaced')
+                return
+            kids = s[1]
+            if len(v) != len(kids):
+                k = 'element-list' if role == 'elements' else (
+                    'bundle-list' if kids and kids[0][0] in
+                    ('int', 'float', 'NoneType', 'bool') and s[0] == 'list'
+                    else 'message-list' if s[0] == 'list' else 'tuple')
+                out.add(f'{k}-length-changed')
+                return
+            for ks, kv in zip(kids, v):
+                rec(ks, kv, 'packet')
+            return
+        if now == s:
+            return
+        if now[0] != s[0]:
+            out.add('memoryview-released' if now[0] == 'memoryview-released'
+                    else 'element-replaced')
+        elif s[0] == 'bytearray':
+            out.add('bytearray-blob-resized' if len(now[1]) != len(s[1])
+                    else 'bytearray-blob-content')
+        elif s[0] == 'memoryview':
+            out.add('memoryview-blob-content' if now[2:] == s[2:]
+                    else 'memoryview-blob-reshaped')
+        else:
+            out.add('element-replaced')
+    rec(snap, x, role)
+    return out
+
+
+def clone(x):
+    """Independent deep copy of an OSC list (copy.deepcopy cannot copy
+    memoryviews): lists and bytearrays are copied, a memoryview becomes a
+    view with the same format over a private copy of its bytes."""
+    if isinstance(x, list):
+        return [clone(e) for e in x]
+    if isinstance(x, bytearray):
+        return bytearray(x)
+    if isinstance(x, memoryview):
+        m = memoryview(bytes(x))
+        return m if x.format == 'B' and x.ndim == 1 else m.cast(x.format)
+    return x
+
+
+def has_mutable_blob(x):
+    if isinstance(x, list):
+        return any(has_mutable_blob(e) for e in x)
+    if isinstance(x, memoryview):
+        try:
+            return not x.readonly
+        except ValueError:          # released
+            return True
+    return isinstance(x, bytearray)
+
+
+def untimed(exp):
+    """Expected tree in which every timetag that depends on the send instant
+    is left open (None); 'immediately' (1) stays."""
+    def args(nodes):
+        out = []
+        for e in nodes:
+            if e[0] == 'arr':
+                out.append(('arr', args(e[1])))
+            elif e[0] in ('blobmsg', 'blobbundle'):
+                out.append((e[0], untimed(e[1])))
+            else:
+                out.append(e)
+        return out
+    if exp[0] == 'msg':
+        return ('msg', exp[1], args(exp[2]))
+    return ('bundle', exp[1] if exp[1] == IMMEDIATELY else None,
+            [untimed(e) for e in exp[2]])
 
 
 def features_nontrivial(feats):
